@@ -88,6 +88,99 @@ MAN={ # (file, site) -> category
  ('dhcpv6/option_iaaddress.go',1):'B: equivalent (checked assertion on nil)',
  ('dhcpv4/nclient4/client.go',95):'B: unreachable error path',
 }
+
+# second part of the campaign (sites 701..2650 of the sample order): verdicts by file and site
+MAN2=[
+ ('dhcpv4/dhcpv4.go',[1,3],'B: capacity hint / unused constant'),
+ ('dhcpv4/dhcpv4.go',[8,9,10],'A: RandomTimeout, a default of the random-source helper'),
+ ('dhcpv4/dhcpv4.go',[99],'B: equivalent (a truncated header leaves a zero cookie, rejected by the next test)'),
+ ('dhcpv4/dhcpv4.go',[104],'B: equivalent (16 is clipped to 16)'),
+ ('dhcpv4/dhcpv4.go',[216],'B: equivalent (padding a 300-byte packet to 300 bytes adds nothing)'),
+ ('dhcpv4/dhcpv4.go',[219,225,232,237,243,249,255,264,271,282],'B: equivalent (falls through to FromBytes(nil), which fails and yields the same result)'),
+ ('dhcpv4/nclient4/client.go',[0,1,4,5,7,9,10],'A: default constants (properties speak of the configured values)'),
+ ('dhcpv4/nclient4/client.go',[43,44,47,54,55],'A: only decides whether a read error is logged while closing'),
+ ('dhcpv4/nclient4/client.go',[68,142],'B: a channel nobody receives from any more is left open (no observable difference)'),
+ ('dhcpv4/nclient4/client.go',[105,112,113,114,115],'A: wording of returned errors'),
+ ('dhcpv4/nclient4/client.go',[106,107,108,109,110],'A: Client.Inform (not part of the exchange rules C13 states)'),
+ ('dhcpv4/nclient4/client.go',[116],'B: unreachable error path'),
+ ('dhcpv4/nclient4/client.go',[121],'A: Lease.CreationTime (wall clock)'),
+ ('dhcpv4/nclient4/conn_unix.go',[29],'B: equivalent (the payload is cut by the IP total length either way)'),
+ ('dhcpv4/nclient4/conn_unix.go',[65],'B: byte count returned together with an error'),
+ ('dhcpv4/nclient4/ipv4.go',[2],'B: a larger scratch buffer'),
+ ('dhcpv4/nclient4/ipv4.go',[8,10,15],'B: equivalent (isValid has rejected short frames before)'),
+ ('dhcpv4/nclient4/ipv4.go',[31,32,33,34,35,36,37,40,42,43],'B: equivalent (TOS, ID, flags and fragment offset of emitted frames are always zero)'),
+ ('dhcpv4/nclient4/ipv4.go',[66,71],'B: equivalent (a packet without room for a UDP header is skipped later anyway)'),
+ ('dhcpv4/nclient4/ipv4.go',[88],'B: equivalent (one more zero octet in the odd-length tail)'),
+ ('dhcpv4/nclient4/ipv4.go',[93],'B: equivalent (the checksum field is written again after encode)'),
+ ('dhcpv4/nclient4/ipv4.go',[138,139],'A: TTL value (the property asks for a well-formed header, not for 64)'),
+ ('dhcpv4/nclient4/lease.go',[8],'A: log line after a release'),
+ ('dhcpv4/nclient4/lease.go',[9],'A: nil lease argument (outside the domain)'),
+ ('dhcpv4/nclient4/lease.go',[10],'B: unreachable error path'),
+ ('dhcpv4/option_autoconfigure.go',[12],'A: GetByte helper on an absent option (no accessor of C17 uses it that way)'),
+ ('dhcpv4/option_duration.go',[0],'A: MaxLeaseTime constant (unused by the codec)'),
+ ('dhcpv4/option_ip.go',[1],'B: equivalent (falls through to FromBytes(nil))'),
+ ('dhcpv4/option_ips.go',[1],'B: capacity hint only'),
+ ('dhcpv4/option_ips.go',[10],'B: equivalent (falls through to FromBytes(nil))'),
+ ('dhcpv4/option_maximum_dhcp_message_size.go',[2,6,9],'B: value returned together with an error / fallthrough to FromBytes(nil)'),
+ ('dhcpv4/option_parameter_request_list.go',[7],'B: equivalent comparison for sorting'),
+ ('dhcpv4/option_routes.go',[23],'B: equivalent (a lone trailing octet is rejected either way)'),
+ ('dhcpv4/option_subnet_mask.go',[2],'B: equivalent (a 4-byte mask cut to 4 bytes)'),
+ ('dhcpv4/options.go',[51],'B: equivalent (Marshal skips the End key)'),
+ ('dhcpv4/options.go',[72],'B: equivalent (255 clipped to 255)'),
+ ('dhcpv4/options.go',[96,98],'A: text of Summary (typed rendering of options 124 and 121)'),
+ ('dhcpv4/server4/server.go',[0],'A: Serve closing its connection when it returns (no property states it)'),
+ ('dhcpv4/server4/server.go',[3],'A: peer address that is not a UDP address (a PacketConn the servers are not documented for)'),
+ ('dhcpv4/server4/server.go',[4],'B: a 4,097-byte read buffer reads every datagram of up to 4,096 bytes identically'),
+ ('dhcpv4/ztpv4/parse_circuitid.go',[1,2],'A: result of the ZTP extractor (only "no crash" is claimed for the helpers)'),
+ ('dhcpv4/ztpv4/ztp.go',[102,105],'A: result of the ZTP extractor (only "no crash" is claimed for the helpers)'),
+ ('dhcpv6/dhcpv6.go',[25],'B: equivalent (an empty input is rejected by the header parse that follows)'),
+ ('dhcpv6/dhcpv6.go',[32],'A: random-source error path'),
+ ('dhcpv6/dhcpv6.go',[77],'B: equivalent (zero is the default hop count)'),
+ ('dhcpv6/dhcpv6.go',[82,83,84],'B: value returned together with an error'),
+ ('dhcpv6/dhcpv6message.go',[0,1],'B: unused constant'),
+ ('dhcpv6/dhcpv6message.go',[31,32,43,53,63,68,84,91,96],'B: equivalent (checked assertion on nil)'),
+ ('dhcpv6/dhcpv6message.go',[90,110,113],'A: convenience accessors ElapsedTime / NTPServers (no property covers the v6 convenience accessors)'),
+ ('dhcpv6/dhcpv6message.go',[167],'B: unreachable error path'),
+ ('dhcpv6/dhcpv6message.go',[176,187],'A: option request / elapsed time of the REQUEST builder (C16 states ids, IAs and transaction id only)'),
+ ('dhcpv6/dhcpv6relay.go',[2,7,12],'B: equivalent (checked assertion on nil)'),
+ ('dhcpv6/dhcpv6relay.go',[23],'A: hardware type returned for an absent client link-layer address option'),
+ ('dhcpv6/modifiers.go',[1,4,37],'A: individual DHCPv6 modifiers (WithNetboot, WithArchType, WithIAPD) — no property states their effect'),
+ ('dhcpv6/nclient6/client.go',[9],'A: nil connection argument'),
+ ('dhcpv6/nclient6/client.go',[13,14,15,16,17],'A: default constants'),
+ ('dhcpv6/nclient6/client.go',[27],'B: equivalent (any non-zero value marks the client closed)'),
+ ('dhcpv6/nclient6/client.go',[42,46,48,49,50,52,57],'A: what is logged about read errors and dropped packets'),
+ ('dhcpv6/nclient6/client.go',[61],'A: WithConn option (the harness passes the connection to NewWithConn)'),
+ ('dhcpv6/nclient6/client.go',[72],'B: unreachable error path'),
+ ('dhcpv6/nclient6/client.go',[109],'B: resource hygiene only (timer stopped early)'),
+ ('dhcpv6/option_4rd.go',[2],'B: equivalent (checked assertion on nil)'),
+ ('dhcpv6/option_4rd.go',[18],'B: equivalent (1 >> 0 == 1 << 0)'),
+ ('dhcpv6/option_elapsedtime.go',[1],'A: rounding of durations that are not multiples of 10 ms (not representable; outside the encodable domain)'),
+ ('dhcpv6/option_iaaddress.go',[0],'B: equivalent (checked assertion on nil)'),
+ ('dhcpv6/option_iapd.go',[7,8],'B: equivalent (checked assertion on nil)'),
+ ('dhcpv6/option_iaprefix.go',[0,1],'B: equivalent (checked assertion on nil)'),
+ ('dhcpv6/option_iaprefix.go',[29],'B: equivalent at the level the properties speak of (a ::/0 prefix object instead of none: same fields read, same bytes written)'),
+ ('dhcpv6/option_nontemporaryaddress.go',[9,10],'B: equivalent (checked assertion on nil)'),
+ ('dhcpv6/options.go',[74],'B: equivalent (the loop does nothing for an empty input)'),
+ ('dhcpv6/options.go',[79,80],'B: capacity hint only'),
+ ('dhcpv6/server6/server.go',[0],'A: Serve closing its connection when it returns (no property states it)'),
+ ('dhcpv6/server6/server.go',[3],'B: a 4,097-byte read buffer reads every datagram of up to 4,096 bytes identically'),
+ ('dhcpv6/server6/server.go',[17,18,19,21,22,24,25,29,30,31,32,33,35,36,37,38,39],'A: socket set-up in NewServer (interface look-up, multicast groups)'),
+ ('dhcpv6/ztpv6/parse_remote_id.go',[0,27],'A: result of the ZTP extractor (only "no crash" is claimed for the helpers)'),
+ ('iana/archtype.go',[9,14,15],'B: capacity hint only'),
+ ('netboot/netboot.go',[0],'A: netboot request loop'),
+ ('rfc1035label/label.go',[16],'B: equivalent (original is assigned again two lines below whenever data is non-nil; a nil input leaves an object whose names and bytes still agree)'),
+]
+for f_,sites_,v_ in MAN2:
+    for n_ in sites_:
+        MAN.setdefault((f_,n_),v_)
+# mutants the current checks kill (re-run with tools/automut_recheck.py after the checks were extended): mutants/auto/recheck.jsonl
+import os
+if os.path.exists('/verif/mutants/auto/recheck.jsonl'):
+    for l_ in open('/verif/mutants/auto/recheck.jsonl'):
+        r_=json.loads(l_)
+        if r_['status']=='killed':
+            MAN[(r_['file'],r_['site'])]='K: killed by the current %s check (%s)' % (r_['by'], (r_.get('sig') or [''])[0].split('sig=')[-1][:60])
+
 out=[]
 cnt={}
 for r,cat in rows:
